@@ -781,15 +781,25 @@ func fullTagAppend(bi, b *blockPointer, offset int) {
 		tagFamilyMap[bi.tagFamilies[i].name] = &bi.tagFamilies[i]
 	}
 
+	// Positions, not pointers: appending a new family or tag below may
+	// reallocate bi.tagFamilies / tags, and a pointer taken before the
+	// append would then address the abandoned copy.
+	tagFamilyIdx := make(map[string]int, len(bi.tagFamilies))
+	for i := range bi.tagFamilies {
+		tagFamilyIdx[bi.tagFamilies[i].name] = i
+	}
+
 	for _, tf := range b.tagFamilies {
-		if existingTagFamily, exists := tagFamilyMap[tf.name]; exists {
-			columnMap := make(map[string]*tag)
+		if _, exists := tagFamilyMap[tf.name]; exists {
+			existingTagFamily := &bi.tagFamilies[tagFamilyIdx[tf.name]]
+			columnIdx := make(map[string]int, len(existingTagFamily.tags))
 			for i := range existingTagFamily.tags {
-				columnMap[existingTagFamily.tags[i].name] = &existingTagFamily.tags[i]
+				columnIdx[existingTagFamily.tags[i].name] = i
 			}
 
 			for _, c := range tf.tags {
-				if existingColumn, exists := columnMap[c.name]; exists {
+				if idx, exists := columnIdx[c.name]; exists {
+					existingColumn := &existingTagFamily.tags[idx]
 					assertIdxAndOffset(c.name, len(c.values), b.idx, offset)
 					existingColumn.values = append(existingColumn.values, c.values[b.idx:offset]...)
 				} else {
